@@ -598,8 +598,8 @@ func runC01(c *Ctx) {
 		for top.Parent() != nil {
 			top = top.Parent()
 		}
-		if top.Name() == "Close" {
-			continue // closing the object: its operations are dropped by contract (no callback after Close)
+		if top.Name() == "Close" || allCallersSatisfy(p, top, 2, func(caller *ssa.Function) bool { return caller.Name() == "Close" }) {
+			continue // closing the object (or a helper only Close uses): its operations are dropped by contract (no callback after Close)
 		}
 		eachInstr(fn, func(in ssa.Instruction) {
 			var dirs []int64
@@ -641,6 +641,26 @@ func runC01(c *Ctx) {
 				closes = append(closes, in)
 			}
 		})
+		if len(closes) == 0 {
+			// the release sequence may live in an unexported helper Close delegates to: analyse it there
+			eachInstr(fn, func(in ssa.Instruction) {
+				call, ok := in.(ssa.CallInstruction)
+				if !ok || len(closes) > 0 {
+					return
+				}
+				if h := call.Common().StaticCallee(); isHelperOf(fn, h) {
+					var hc []ssa.Instruction
+					eachInstr(h, func(x ssa.Instruction) {
+						if isCallTo(x, sysClose) || isCallToFn(x, sockClose) {
+							hc = append(hc, x)
+						}
+					})
+					if len(hc) > 0 {
+						fn, closes = h, hc
+					}
+				}
+			})
+		}
 		if len(closes) == 0 {
 			c.bad(fn, "close", fn.Pos(), "Close does not close the descriptor")
 			continue
